@@ -7,7 +7,7 @@
    level (C01-C03; compared on the implementation by lib/props/c13.py on every run).
      edit family   t e esl edoc eim efs tvd evd : de_value
      value family  tval tvdval : to_toml_value then tv_de;   ttab : to_toml_table then tv_de *)
-From TV Require Import Base.Prelude Model.Datetime Model.SerNum Spec.SerdeData Model.Ser Model.De Model.SerdeRoutes
+From TV Require Import Base.Prelude Model.Datetime Model.DatetimeStd Model.SerNum Spec.SerdeData Model.Ser Model.De Model.SerdeRoutes
   Proofs.RoutesRefuted Proofs.RoutesConv Proofs.RoutesTwins Proofs.RoutesTop Proofs.RoutesDecode Extract.Show.
 Require Import String.
 
@@ -74,6 +74,21 @@ Theorem C13_value_text_tuple_variant :
 Proof. exact on_serialized_value_tuple_variant. Qed.
 Print Assumptions C13_value_text_tuple_variant.
 
+(* the former witness of the repaired C06-root-datetime-printed-as-table: a Datetime at the ROOT of
+   toml::ser::ValueSerializer is written as the date-time (before: as the table { "$__toml_private_datetime" = ".." })
+   and read back by the three single-value routes; at the root of a document it is refused by toml::to_string as by
+   toml_edit::ser::to_string (a document is a table); Value::try_from yields the date-time.  Table::try_from still
+   answers the private-key table (known class private-datetime-key). *)
+Theorem C13_root_datetime :
+  has_type rdt_val rdt_ty
+  /\ ser_value_text rdt_ty rdt_val = Ok (VDatetime dt_d) /\ ser_value rdt_ty rdt_val = Ok (VDatetime dt_d)
+  /\ tv_ser rdt_ty rdt_val = Ok (VDatetime dt_d)
+  /\ ser_toml_root rdt_ty rdt_val = Err (EUnsupportedType None) /\ ser_edit_root rdt_ty rdt_val = Err (EUnsupportedType None)
+  /\ (forall r, r = R_tvd \/ r = R_evd \/ r = R_tvdval -> decode r rdt_ty (VDatetime dt_d) = Ok rdt_val)
+  /\ tv_ser_table rdt_ty rdt_val = Ok (VTab [(DT_FIELD, VStr (display_datetime dt_d))]).
+Proof. exact root_datetime. Qed.
+Print Assumptions C13_root_datetime.
+
 (* ---- Value::try_from / Table::try_from against serialize-then-parse, date-times included ---- *)
 Theorem C13_try_from_datetime :
   ser_toml_root dt_ty dt_val = Ok dt_tree /\ to_toml_value dt_tree = Ok dt_tree
@@ -97,6 +112,28 @@ Theorem C13_twin_serializers : forall ty v x,
 Proof. intros ty v x. exact (try_from_twin ty v x). Qed.
 Print Assumptions C13_twin_serializers.
 
+(* ---- the converse: try_from accepts nothing serialize-then-parse refuses ----
+   (The defect that made this false, C07-tryfrom-nested-none-dropped, is repaired in /repo: Value::try_from /
+   Table::try_from answered Ok, with a field dropped, where to_string answers Err(unsupported None).)
+   doc_keys: no map key type is `char` / `Option<_>` — keys Value::try_from accepts by contract (whatever serializes to
+   a string) and a document serializer does not. *)
+Theorem C13_try_from_same_verdict : forall ty v, has_type v ty -> doc_keys ty = true ->
+  ((exists y, tv_ser ty v = Ok y) <-> (exists x, ser_value ty v = Ok x)).
+Proof. exact try_from_same_verdict. Qed.
+Print Assumptions C13_try_from_same_verdict.
+
+(* ... and on success the trees are the same *)
+Theorem C13_try_from_accepts_only_serializable : forall ty v y,
+  has_type v ty -> doc_keys ty = true -> tv_ser ty v = Ok y ->
+  exists x, ser_value ty v = Ok x /\ (tunnel_free x = true -> to_toml_value x = Ok y).
+Proof. exact try_from_accepts_only_serializable. Qed.
+Print Assumptions C13_try_from_accepts_only_serializable.
+
+Theorem C13_table_try_from_accepts_only_serializable : forall ty v y,
+  has_type v ty -> doc_keys ty = true -> tv_ser_table ty v = Ok y -> exists x, ser_value ty v = Ok x.
+Proof. exact table_try_from_accepts_only_serializable. Qed.
+Print Assumptions C13_table_try_from_accepts_only_serializable.
+
 (* ---- non-vacuity ---- *)
 (* struct Cfg { m: BTreeMap<String, Vec<En>>, o: Option<Point>, t: En, w: Wrap(u8), c: char }   (no date-time) *)
 Definition ex_en : ty :=
@@ -110,7 +147,7 @@ Definition ex_val : sval :=
   SRec [SMap [(SStr (str "k2"), SSeq [SVariant 0 SUnit; SVariant 3 (SRec [SNone; SInt 7])]); (SStr (str "k1"), SSeq [])];
         SSome (SRec [SInt 1; SInt (-2)]); SVariant 2 (SSeq [SBool true; SStr (str "x y")]); SNewtype (SInt 255); SChar 233].
 
-Example C13_ex_hyps : has_type ex_val ex_ty /\ twin_ty ex_ty = true
+Example C13_ex_hyps : has_type ex_val ex_ty /\ twin_ty ex_ty = true /\ doc_keys ex_ty = true
   /\ match ser_toml_root ex_ty ex_val with Ok out => tunnel_free out && plain_root out | Err _ => false end = true.
 Proof. repeat split; vm_compute; reflexivity. Qed.
 
